@@ -50,7 +50,7 @@ var (
 	cliDNS = []string{saName + "." + ns}
 	essDNS = []string{"*." + ns}
 
-	hostOf = map[string]string{"": "", "h": "xpkg.example.org/", "hp": "registry.example.org:5000/"}
+	hostOf = map[string]string{"": "", "h": "xpkg.example.org/", "hp": "registry.example.org:5000/", "hd": "docker.io/"} // hd: a host alias that image reference parsers rewrite (to index.docker.io)
 	repoOf = map[string]string{"r1": "acme/provider-one", "r2": "acme/provider-two"}
 	verOf  = map[string]string{"t1": ":v1.0.0", "t2": ":v2.0.0",
 		"d1": "@sha256:" + strings.Repeat("1a", 32), "d2": "@sha256:" + strings.Repeat("2b", 32)}
